@@ -381,6 +381,23 @@ theorem scheduler_steps_eq_iterations (ops : Ops P O G B L Sc) (lrAt : Nat → L
   have := (runProc_inv ops lrAt cfg e batch tbl h rs hrs init h0 hg0 latest hl p).2.2 hd
   rw [this]; rw [hst] at hle; omega
 
+open DirectVerif.C16E in
+/-- **Histories that only ever resume at window boundaries reproduce the uninterrupted run** (generalises
+`resume_window_boundary_partial` to any number of kills / clean stops / resumes with validation rounds, checkpoints and log
+writes anywhere, also inside windows): every live process of the history is in the state of the uninterrupted run after as
+many iterations as its scheduler has counted — in particular a process that reaches `num_iterations` ends in
+`runRange … init 0 num_iterations` (`scheduler_steps_eq_iterations`).  Resumes inside a window are the known finding
+(`resume_mid_window_first_step`). -/
+theorem resume_at_boundaries_eq_uninterrupted (ops : Ops P O G B L Sc) (lrAt : Nat → L) (cfg : Cfg) (e : EvCfg)
+    (batch : Nat → B) (tbl : C16E.Table) (h : wfBetween tbl = true) (rs : Int → Int → Int)
+    (hrs : ∀ label : Nat, rs (label : Int) (cfg.k : Int) = (label : Int) + 1)
+    (init : St P O G Sc) (h0 : init.epoch = 0) (hg0 : init.grad = ops.zero) (procs : List Proc)
+    (hal : ∀ ps ∈ history tbl rs ops lrAt cfg e batch init none procs, ps.start % cfg.k = 0) :
+    ∀ ps ∈ history tbl rs ops lrAt cfg e batch init none procs,
+      ps.dead = false → ps.s = runRange ops lrAt cfg batch init 0 ps.s.epoch :=
+  history_aligned_eq_uninterrupted ops lrAt cfg e batch tbl h rs hrs init h0 hg0 procs none
+    (fun _ _ hl => by cases hl) hal
+
 /-- regression witness (seeded C16-5): `optimizer.zero_grad()` at the top of a validation round.  `k = 2`,
 `validation_steps = 3`, gradients `2, 4, …`, lr 1, 8 iterations: the validation round after iteration 6 falls inside the
 window {6, 7}; the gradient of batch 6 is dropped (`θ = −29` instead of `−36`) -/
@@ -464,6 +481,13 @@ example : delivered Toy.intOps (fun _ => (1 : Int)) { k := 2 } (fun i => 2 * (i 
 example : C16E.wfBetween C16E.table = true ∧ C16E.wfBetween C16E.tableValZero = false := by decide
 
 example : C16E.wfAmp C16E.ampTable = true := by decide
+
+/-- the alignment hypothesis of `resume_at_boundaries_eq_uninterrupted` is satisfiable with a kill and a clean stop -/
+example : ((C16E.history C16E.table C16E.resumeStart Toy.intOps (fun _ => (1 : Int)) { k := 2 }
+      { ckSteps := 3, valSteps := 3, hasVal := true } (fun i => 2 * ((i : Int) + 1)) (⟨0, (), 0, 0, ()⟩ : St Int Unit Int Unit) none
+      [{ total := 12, kill := some 6, swv := false, resume := true }, { total := 10, kill := none, swv := true, resume := true },
+       { total := 12, kill := none, swv := false, resume := true }]).map fun ps => (ps.start, ps.dead, ps.s.theta))
+    = [(0, true, -21), (6, false, -55), (10, false, -78)] := by decide
 
 example : ∀ label : Nat, C16E.resumeStart (label : Int) ((2 : Nat) : Int) = (label : Int) + 1 := fun _ => rfl
 
